@@ -95,7 +95,10 @@ impl SizeLaw for Ipa {
         jg() + TAG + if sess.meta[i].bound.is_some() { jg() } else { 0 }
     }
     fn proof_size(sess: &Session<Self>, order: &[usize]) -> usize {
-        let k = (sess.keys.ck.supported_degree() + 1).trailing_zeros() as usize;
+        // rounds follow the supported degree that was *requested* from trim (rounded up to 2^k - 1), not
+        // whatever the key reports
+        let req = sess.keys.info.desc["supported_requested"].as_u64().map(|x| x as usize).unwrap_or(sess.keys.ck.supported_degree());
+        let k = (req + 1).next_power_of_two().trailing_zeros() as usize;
         let hid = order.iter().any(|i| sess.meta[*i].hiding.is_some());
         2 * (LEN + k * jg()) + jg() + jf() + (TAG + if hid { jg() } else { 0 }) + (TAG + if hid { jf() } else { 0 })
     }
